@@ -8,12 +8,17 @@
 (* Hamming distance floor(r/2) of the received word.                                                           *)
 EXTENDS GF, FiniteSets
 
-RECURSIVE Horner(_, _, _, _, _)
-Horner(f, w, x, i, acc) == IF i > Len(w) THEN acc ELSE Horner(f, w, x, i + 1, Mul(f, acc, x) ^^ w[i])
-Eval(f, w, x) == Horner(f, w, x, 1, 0)                              \* w(x)
+(* w(alpha^e) = XOR_i w[i] * alpha^(e * (n - i)) - the definition of evaluating the polynomial of w, summed by       *)
+(* halving the index range (TLC slows down badly on deep recursion, so no Horner chain over long words).            *)
+Term(f, w, e, i) == Mul(f, w[i], Exp(f, e * (Len(w) - i)))
+RECURSIVE XorRange(_, _, _, _, _)
+XorRange(f, w, e, lo, hi) == IF lo = hi THEN Term(f, w, e, lo)
+                             ELSE LET mid == (lo + hi) \div 2 IN XorRange(f, w, e, lo, mid) ^^ XorRange(f, w, e, mid + 1, hi)
+EvalAtPow(f, w, e) == XorRange(f, w, e, 1, Len(w))
+Eval(f, w, x) == IF x = 0 THEN w[Len(w)] ELSE EvalAtPow(f, w, Log(f, x))          \* w(x)
 Root(f, j) == Exp(f, Base(f) + j)                                   \* j-th root of the generator, j = 0..r-1
-Syndromes(f, w, r) == [j \in 1..r |-> Eval(f, w, Root(f, j - 1))]
-IsCodeword(f, w, r) == \A j \in 0..(r - 1) : Eval(f, w, Root(f, j)) = 0
+Syndromes(f, w, r) == [j \in 1..r |-> EvalAtPow(f, w, Base(f) + j - 1)]
+IsCodeword(f, w, r) == \A j \in 0..(r - 1) : EvalAtPow(f, w, Base(f) + j) = 0
 IsWord(f, w) == \A i \in 1..Len(w) : IsElem(f, w[i])
 
 (* g * (x - c)  (characteristic 2: minus is plus) *)
